@@ -404,6 +404,20 @@ fn fixed_corpus(cx: &mut Cx) {
     if vals.len() == 3 {
         cx.out.violation("C04:malformed-silence:get-lookalike", "collect_get_keys consumed a GET look-alike and dropped it (count below batch_threshold): no reply for the frame", json!({"op": op_line(&d, &[s.clone()]), "observed": line, "expected": "4 replies, the first an error"}));
     }
+    // the SET recogniser has the same off-by-one
+    let bad = b"*3\r\n$3\r\nSET\r\nX$1\r\nk\r\n$1\r\nv\r\n".to_vec();
+    check_malformed(cx, &d, &[], &bad, "set-lookalike", &[bad.clone()], "corpus");
+    let mut s = bad.clone();
+    for _ in 0..3 {
+        s.extend_from_slice(&ping);
+    }
+    let r = cx.runner.run(&d, &[s.clone()]);
+    let (line, vals) = line_of(&r);
+    cx.out.op(op_line(&d, &[s.clone()]), line.clone());
+    cx.out.case(&op_line(&d, &[s.clone()]), true);
+    if vals.len() == 3 {
+        cx.out.violation("C04:malformed-silence:set-lookalike", "collect_set_pairs consumed a SET look-alike and dropped it (count below batch_threshold): no reply for the frame", json!({"op": op_line(&d, &[s.clone()]), "observed": line, "expected": "4 replies, the first an error"}));
+    }
     // W3: wrapping length arithmetic in the recognisers
     let bad = b"*2\r\n$3\r\nGET\r\nX$18446744073709551615\r\nab".to_vec();
     check_malformed(cx, &d, &[], &bad, "huge-key-length", &[bad.clone()], "corpus");
